@@ -61,7 +61,9 @@ except Exception:
     sys.exit(3)
 spec = json.load(open(sys.argv[1]))
 res = []
-for src, dst, mode in spec["jobs"]:
+for job in spec["jobs"]:
+    src, dst, mode = job[0], job[1], job[2]
+    prefix = job[3] if len(job) > 3 else spec["dfile_prefix"]
     try:
         kw = {}
         if mode != "ts":
@@ -70,7 +72,7 @@ for src, dst, mode in spec["jobs"]:
         elif sys.version_info >= (3, 7):
             from py_compile import PycInvalidationMode as M
             kw["invalidation_mode"] = M.TIMESTAMP
-        py_compile.compile(src, cfile=dst, dfile=spec["dfile_prefix"] + os.path.basename(src), doraise=True, **kw)
+        py_compile.compile(src, cfile=dst, dfile=prefix + os.path.basename(src), doraise=True, **kw)
         res.append(dst)
     except Exception:
         pass
@@ -167,6 +169,10 @@ def produce_corpus(seed, n_xdis, n_stdlib, only_tags=None, outdir=None, workers=
                 stem = "%03d_%s" % (k, os.path.basename(src)[:-3])
                 dst = os.path.join(tdir, "%s.%s.pyc" % (stem, mode))
                 jobs.append([src, dst, mode])
+            if k % 4 == 1:
+                # the same program stored under another source path: value-equal code, different co_filename
+                stem = "%03d_%s" % (k, os.path.basename(src)[:-3])
+                jobs.append([src, os.path.join(tdir, "%s.alt.pyc" % stem), "ts", "alt/"])
         spec = os.path.join(tdir, "spec.json")
         resf = os.path.join(tdir, "res.json")
         with open(spec, "w") as f:
